@@ -485,6 +485,10 @@ func run(c *Case) {
 		c.CoqJ = fmt.Sprintf("DCase (%s)\n    %s %v %s", c.Coq, c.doc.coq(), written, tagLetters(*c.doc))
 		c.TreeKind = "dcase"
 	}
+	if c.Proto == "ddmet" && c.doc != nil {
+		c.CoqJ = fmt.Sprintf("MCase (%s)\n    %s %v", c.Coq, c.doc.coq(), !c.Damage)
+		c.TreeKind = "mcase"
+	}
 }
 
 func countEntries(c *Case) int {
@@ -552,9 +556,12 @@ func main() {
 		// small Loki JSON documents only, two of three with one edit in the tree: volume for the walk of model/LokiJson.v
 		for i := 0; i < f.N; i++ {
 			c := Case{ID: 3000000 + i, WSeed: r.Int63(), Proto: "loki_json"}
-			if i%5 >= 3 { // two of five are Datadog log documents (walk of model/DatadogJson.v)
+			if i%5 == 3 { // two of five are Datadog log / metric documents (walks of model/DatadogJson.v)
 				c.Proto = "ddlog"
 				genDDLog(r, &c)
+			} else if i%5 == 4 {
+				c.Proto = "ddmet"
+				genDDMet(r, &c)
 			} else {
 				genLoki(r, &c, false)
 			}
